@@ -46,12 +46,48 @@ def hashes_ok(a, fs, c, V, label, rep):
     return n
 
 
+def recorded_hashes(a, fs, c):
+    """{truncated hash: bytes} of every recorded block; None when two different blocks collide under the
+    configured (reduced) hash size - such an array cannot tell them apart by design and the case is trivial."""
+    out = {}
+    name2idx = {nm.encode(): i for i, nm in enumerate(a.disk_names)}
+    for f in c.files:
+        d = name2idx[c.disk_name(f.disk)]
+        data = fs.lookup(d, f.sub, f.size, f.mtime_sec, f.mtime_nsec if f.mtime_nsec >= 0 else 0)
+        if data is None:
+            continue
+        for i, (pos, st, h) in enumerate(f.blocks):
+            blk = data[i * c.blocksize:(i + 1) * c.blocksize]
+            if out.setdefault(h, blk) != blk:
+                return None
+    return out
+
+
+def gen_decoy(rng, n, c, taken):
+    """Random bytes none of whose blocks collides with a recorded block under the configured hash size."""
+    for _ in range(50):
+        data = A.gen_bytes(rng, n, "rand")
+        ok = True
+        for i in range(0, max(n, 1), c.blocksize):
+            blk = data[i:i + c.blocksize]
+            h = refhash.digest(c.hash, c.hashseed, blk, c.hashsize)
+            if h in taken and taken[h] != blk:
+                ok = False
+                break
+        if ok:
+            return data
+    raise scen.CaseError("no collision-free decoy found")
+
+
 def run_case(case):
     seed, idx, tier = case
     rng = random.Random("c19-%d-%d" % (seed, idx))
     variant = "asan" if idx % 4 == 3 else "plain"
     res = dict(key=None, violations=[], counters={}, nontrivial=False)
-    cfg = scen.gen_config(rng, max_lev=2, force=dict(nd=rng.randint(2, 4), hashsize=16), allow_splits=False)
+    # reduced hash sizes: decoys are generated collision-free under the truncated hash (gen_decoy), arrays whose own
+    # blocks collide are trivial (recorded_hashes)
+    hs = rng.choice([16, 16, 8, 4, 2]) if idx % 4 != 3 else rng.choice([16, 8, 4, 2, 2])
+    cfg = scen.gen_config(rng, max_lev=2, force=dict(nd=rng.randint(2, 4), hashsize=hs), allow_splits=False)
     opts = ["--test-fake-uuid"] if idx % 2 == 0 else []
     a, fs = scen.make(rng, cfg, "c19")
     V = res["violations"]
@@ -65,6 +101,13 @@ def run_case(case):
         if r.rc != 0:
             raise scen.CaseError("setup sync failed")
         mode = ["copy-decoy", "copy-decoy-prehash", "move", "import", "duplicate", "nocopy", "killaftersync"][idx % 7]
+        c0 = a.load_content()
+        taken = recorded_hashes(a, fs, c0)
+        if taken is None:
+            res["counters"]["trivial_truncated_hash_collision"] = 1
+            res["key"] = "collision|%s" % sorted((k, str(v)) for k, v in cfg.items())
+            return res
+        res["counters"]["hashsize_%d" % cfg["hashsize"]] = 1
         rep = {"case": list(case), "cfg": cfg, "mode": mode, "opts": opts}
         originals = [(d, s) for (d, s) in fs.files() if len(fs.entries[d][s][1]) >= 1 and not fs.links_of(d, s)]
         if not originals:
@@ -88,7 +131,7 @@ def run_case(case):
                 if not scen._clear_path(fs, d2, s2):
                     continue
                 true_copy = rng.random() < 0.3
-                data = e[1] if true_copy else A.gen_bytes(rng, len(e[1]), "rand")
+                data = e[1] if true_copy else gen_decoy(rng, len(e[1]), c0, taken)
                 if data == e[1] and not true_copy:
                     continue
                 fs.write(d2, s2, data, mtime_ns=e[2])
@@ -171,7 +214,7 @@ def run_case(case):
             for k, (d, s) in enumerate(victims):
                 e = fs.entries[d][s]
                 truth = rng.random() < 0.5
-                data = e[1] if truth else A.gen_bytes(rng, len(e[1]), "rand")
+                data = e[1] if truth else gen_decoy(rng, len(e[1]), c0, taken)
                 if mode == "import":
                     p = os.path.join(os.fsencode(imp), b"imp%d_" % k + s.split(b"/")[-1])
                     with open(p, "wb") as f:
